@@ -799,6 +799,58 @@ def check_k5_order(chk, m, cfg):
            "find_command stops early on the sign of %s but console_register orders the table with %s: a name whose positions under the two "
            "orders differ is registered and never found" % (", ".join(sorted(early)), ", ".join(sorted(used)) or "no comparison"), ff.loc, ff.name)
 
+# glibc's character-class table for the C locale (the bits of <ctype.h> on a little-endian target), so that a branch condition that
+# classifies the fetched character (isprint, isspace, ... - macro-expanded to a table load, or called) can be evaluated per character
+_CT = {"isupper": 256, "islower": 512, "isalpha": 1024, "isdigit": 2048, "isxdigit": 4096, "isspace": 8192, "isprint": 16384,
+       "isgraph": 32768, "isblank": 1, "iscntrl": 2, "ispunct": 4, "isalnum": 8}
+
+
+def ctype_c_locale(v):
+    v &= 0xffffffff
+    if v >= 128:
+        return 0
+    ch = chr(v)
+    up, lo, dg = "A" <= ch <= "Z", "a" <= ch <= "z", "0" <= ch <= "9"
+    r = 0
+    r |= 256 if up else 0
+    r |= 512 if lo else 0
+    r |= 1024 if up or lo else 0
+    r |= 2048 if dg else 0
+    r |= 4096 if dg or ch in "abcdefABCDEF" else 0
+    r |= 8192 if ch in " \t\n\v\f\r" else 0
+    r |= 16384 if 32 <= v <= 126 else 0
+    r |= 32768 if 33 <= v <= 126 else 0
+    r |= 1 if ch in " \t" else 0
+    r |= 2 if v < 32 or v == 127 else 0
+    r |= 4 if 33 <= v <= 126 and not (up or lo or dg) else 0
+    r |= 8 if up or lo or dg else 0
+    return r
+
+
+def char_cond_value(c, res, v):
+    """Truth of a branch condition over the fetched character `res` when the character is v (C locale); NoValue if it is not a
+    function of the character alone."""
+    def rw(e):
+        if not isinstance(e, tuple) or not e:
+            return e
+        if e == res:
+            return ("c", 32, v)
+        if e[0] == "ld":
+            root, off, var = ptr_parts(e[1])
+            r = strip_casts(root)
+            if r[0] == "ld" and strip_casts(r[1])[0] == "call" and strip_casts(r[1])[1] == "__ctype_b_loc" and off == 0 \
+                    and len(var) == 1 and var[0][1] == 2:
+                i = paths.eval_concrete(rw(var[0][0]), {})
+                return ("c", 16, ctype_c_locale(i))
+        if e[0] == "call" and isinstance(e[1], str) and e[1] in _CT and e[2]:
+            i = paths.eval_concrete(rw(e[2][0]), {})
+            return ("c", 32, 1 if ctype_c_locale(i) & _CT[e[1]] else 0)
+        return tuple(rw(x) if isinstance(x, tuple) else ([rw(y) for y in x] if isinstance(x, list) else x) for x in e)
+    return bool(paths.eval_concrete(rw(c), {}))
+
+
+ORDINARY = [9] + list(range(32, 127))      # tab, space, printable characters (quotes included): everything that is not an editing key
+
 
 def check_k6_k7(chk, m, cfg):
     fn = m.fn("console_run")
@@ -890,6 +942,47 @@ def check_k6_k7(chk, m, cfg):
             if any(paths.contains(v, lambda x: x == res) for v in carried.values()):
                 used = True        # kept in a variable for the next stretch of the loop
             n_taken += 1
+            # ... and an ordinary character (tab, space, printable) is never taken and silently dropped: on a segment that, after
+            # the fetch, stores the character nowhere, does not move the cursor and calls nothing but character-class tests, the
+            # conditions on the character must exclude every ordinary character of the property's alphabet
+            ca_ = carg(fn)
+            quiet = used and not any(paths.contains(v, lambda x: x == res) for v in carried.values())
+            for e2 in p.events[k + 1:]:
+                if e2.kind == "store":
+                    if e2.val is not None and paths.contains(e2.val, lambda x: x == res):
+                        quiet = False
+                    if e2.ptr is not None:
+                        r_, o_, v_ = ptr_parts(e2.ptr)
+                        if r_ == ("arg", ca_) and not v_ and o_ == L["bufp"][0]:
+                            quiet = False
+                elif e2.kind == "call":
+                    if not (isinstance(e2.callee, str) and (e2.callee in _CT or e2.callee == "__ctype_b_loc")):
+                        quiet = False
+            if quiet:
+                cs = [(c, t) for c, t, i_ in p.conds if (i_ is None or i_.op != "switch") and paths.contains(c, lambda x: x == res)]
+                sw = [1 for c, t, i_ in p.conds if i_ is not None and i_.op == "switch" and paths.contains(c, lambda x: x == res)]
+                sid_ = "console_run[%s] %s..%s %s" % (cfg, start.lstrip("%"), p.end, e.inst.loc)
+                dropped, bad_c = [], None
+                if sw:
+                    bad_c = "a switch over the character"
+                else:
+                    for v in ORDINARY:
+                        try:
+                            if all(char_cond_value(c, res, v) == bool(t) for c, t in cs):
+                                dropped.append(v)
+                        except paths.NoValue as ex:
+                            bad_c = "a condition on the character that is not a function of the character alone"
+                            break
+                if bad_c:
+                    chk.unknown("K6.char-stored", sid_, "segment that drops the character is guarded by " + bad_c, e.inst.loc)
+                else:
+                    chk.ob("K6.char-stored", sid_, not dropped,
+                           "the only way to take a character and neither store it, edit the line nor dispatch is closed to every ordinary "
+                           "character (tab, space, printable): the segment's conditions on the character admit none of them" if not dropped else
+                           "the character fetched at %s is dropped without any effect on the line when it is %s: the line the command "
+                           "is computed from is then not the line that was typed (white space lost between tokens or inside quotes)"
+                           % (e.inst.loc, ", ".join(repr(chr(v)) for v in dropped[:6]) + (" ..." if len(dropped) > 6 else "")),
+                           e.inst.loc, fn.name)
             chk.ob("K6.char-consumed", "console_run[%s] %s..%s %s" % (cfg, start.lstrip("%"), p.end, e.inst.loc), used,
                    "the character fetched here is handed to the line editor (compared with an editing character, stored, passed on)" if used else
                    "the character fetched at %s is known to be a character (not -1) and is then dropped: whatever the user had typed "
